@@ -10,9 +10,9 @@ from vf.ch.lib import conc
 
 PART = -1
 KNOWN = set()
-LEX = ['select ', 'a', ', ', ' from ', 't', ' where ', 'x = 1', ' and ', '(', ')', ' order by ', ';', ' ', '-- c\n', '/* c */', "'s t'",
-       ' join ', ' on ', ' group by ', ' union ', 'case when a then 1 end', ' as ', 'f(', 'a+b', '*', ' having ', ' limit 1', '"q c"', '\n',
-       'insert into t values (1, 2)', 'update t set a = 1', ' between 1 and 2', ' or ', '- 1', 'x>=2', ' set ', ' except ', 'count(*)']
+LEX = ['select ', 'a', ', ', ' from ', '- 1', 'a+b', 'x>=2', ' where ', '(', ')', ' order by ', ';', ' ', '-- c\n', '/* c */', "'s t'", 't', 'x = 1', ' and ',
+       ' join ', ' on ', ' group by ', ' union ', 'case when a then 1 end', ' as ', 'f(', '*', ' having ', ' limit 1', '"q c"', '\n',
+       'insert into t values (1, 2)', 'update t set a = 1', ' between 1 and 2', ' or ', ' set ', ' except ', 'count(*)']
 NLEXEME = 16
 NLEX = 3
 BOOLS = ['reindent', 'reindent_aligned', 'strip_whitespace', 'use_space_around_operators', 'indent_tabs', 'indent_after_first',
@@ -128,6 +128,9 @@ def normal_why(text, o):
                 if '\n' in v:
                     line_start = True
                 continue
+            if tt in T.Comment.Single and v.endswith(('\n', '\r')):
+                line_start = True        # a `--` comment carries its own line end
+                continue
             if tt is T.Keyword or tt in T.Keyword:
                 u = ' '.join(v.upper().split())
                 if u == 'BETWEEN':
@@ -136,7 +139,7 @@ def normal_why(text, o):
                     depth_between = False
                     line_start = False
                     continue
-                if (u in CLAUSE or u.endswith('JOIN')) and not line_start:
+                if (u in CLAUSE or u.endswith('JOIN') or u.startswith('UNION')) and not line_start:
                     return f'reindent:{u}-not-at-line-start: {text!r} -> {out!r}'
             line_start = False
     return None
@@ -171,7 +174,7 @@ def normal(ks: List[int], oi: int) -> int:
 
 
 # ---- scripts of the verification grammar (structured choices) ------------------------------------
-ITEMS = ['a', 'a, b AS c', 'f(a), t.b', 'a+b, count(*)', 'case when a then 1 else 2 end, d', '(select 1), "q c"', "'s t', 1.5", 'a , b']
+ITEMS = ['a', '- 1, b AS c', 'f(a), t.b', 'a+b, count(*)', 'case when a then 1 else 2 end, d', '(select 1), "q c"', "'s t', 1.5", 'a , b']
 TABLES = ['t', 't join u on a = b', 't left outer join u on t.a = u.b', 't, u', '(select a from s where z = 3) x', 't cross join u']
 WHERES = ['', 'x = 1', 'x = 1 and y > 2', 'a between 1 and 2 and b < 3', 'x in (1, 2) or y is null', "e like 'z' and (f = 1 or g = 2)", 'exists (select 1 from u where k = 1)']
 TAILS = ['', 'group by a', 'group by a having count(*) > 1', 'order by a desc', 'order by a, b limit 1', 'group by a order by 1', 'limit 1']
@@ -206,7 +209,7 @@ def g_tokens(i: int, t: int, w: int, tl: int, so: int, ws: int, cm: int, oi: int
     pre: 0 <= i < 8 and 0 <= t < 6 and 0 <= w < 7 and 0 <= tl < 7 and 0 <= so < 4 and 0 <= ws < 4 and 0 <= cm < 3
     pre: 0 <= oi < NOPT
     pre: PART < 0 or oi == PART
-    pre: GSUB == 0 or ((i + 3 * t + 5 * w + 7 * tl + 11 * so + 13 * ws + 17 * cm) % GSUB == GSEED % GSUB)
+    pre: GSUB == 0 or ((i + 8 * (t + 6 * (w + 7 * (tl + 7 * (so + 4 * (ws + 4 * cm)))))) % GSUB == GSEED % GSUB)
     post: _ != 2
     """
     text = gen(conc(i, 7), conc(t, 5), conc(w, 6), conc(tl, 6), conc(so, 3), conc(ws, 3), conc(cm, 2))
@@ -221,7 +224,7 @@ def g_normal(i: int, t: int, w: int, tl: int, so: int, ws: int, cm: int, oi: int
     pre: 0 <= i < 8 and 0 <= t < 6 and 0 <= w < 7 and 0 <= tl < 7 and 0 <= so < 4 and 0 <= ws < 4 and 0 <= cm < 3
     pre: 0 <= oi < NOPT
     pre: PART < 0 or oi == PART
-    pre: GSUB == 0 or ((i + 3 * t + 5 * w + 7 * tl + 11 * so + 13 * ws + 17 * cm) % GSUB == GSEED % GSUB)
+    pre: GSUB == 0 or ((i + 8 * (t + 6 * (w + 7 * (tl + 7 * (so + 4 * (ws + 4 * cm)))))) % GSUB == GSEED % GSUB)
     post: _ != 2
     """
     text = gen(conc(i, 7), conc(t, 5), conc(w, 6), conc(tl, 6), conc(so, 3), conc(ws, 3), conc(cm, 2))
